@@ -172,8 +172,9 @@ ObsComplete == [][TaskStep =>
 ObsBitfield == [][(TaskStep /\ Frames("Bitfield") # <<>>) =>
                     \A i \in 1..Len(Frames("Bitfield")) : Frames("Bitfield")[i].s = bfs[K]]_ovars
 \* announcements follow the completions broadcast to the connection, in order; at rest nothing is missing
+\* (at rest = at a disk scan, for a task that is not in the middle of a call to the manager)
 ObsAnnPrefix == \A k \in Peers : h[k].alive => IsPrefix(ann[k] \o h[k].buf, due[k])
-ObsAnnAtRest == [][At("Disk") => \A k \in Conn : h[k].alive => ann[k] \o h[k].buf = due[k]]_ovars
+ObsAnnAtRest == [][At("Disk") => \A k \in Conn : h[k].alive /\ ~InFlight(k) => ann[k] \o h[k].buf = due[k]]_ovars
 
 \* --- C13: a piece handed out is a rarest candidate in the state it was picked in ----------------------------
 ObsPick == [][(At("Mgr") /\ Ev.reply \in {"SendRequest", "SendInterestedAndRequest"}) =>
@@ -187,7 +188,7 @@ ObsPickNone == [][(At("Mgr") /\ Ev.cmd \in {"Unchoke", "PieceDone", "PieceCancel
                   CandidatesIn(LogSt, LogMp, K) = {}]_ovars
 
 \* --- C14: at rest every peer's view of its choke state is the manager's --------------------------------------
-ObsViewAtRest == [][At("Disk") => \A k \in Conn : h[k].alive /\ wire[k].hs => ((wire[k].ch = "C") <=> mp[k].amCh)]_ovars
+ObsViewAtRest == [][At("Disk") => \A k \in Conn : h[k].alive /\ ~InFlight(k) /\ wire[k].hs => ((wire[k].ch = "C") <=> mp[k].amCh)]_ovars
 
 \* --- C20 ----------------------------------------------------------------------------------------------------
 \* the keep-alive timer: a keep-alive goes out and the silence counter grows, until the limit ends the task;
